@@ -379,6 +379,8 @@ def cancel_case(draw, driver=None):
     kind = draw(st.sampled_from(["send", "seq"]))
     callers = [{"kind": kind, "cmds": [first] + ([_cmd(draw, 4, Q if drv != "hasseb" else ["off"])] if kind == "seq" else []), "t0": 0.0,
                 "cancel": draw(st.sampled_from([0.0, 0.0001, 0.002, 0.01, 0.02, 0.03, 0.041, 0.05, 0.062, 0.08]))}]
+    if draw(st.booleans()):
+        callers[0]["cancel_with_report"] = True      # the timeout fires in the iteration that reads the next report
     n = 300
     cmds = [{"k": "dapc", "a": i % 64, "p": (i * 7) % 254} for i in range(n)]
     if draw(st.booleans()):
@@ -441,6 +443,8 @@ def features(case):
         f.append("event:" + e["what"] + (":silent" if e.get("notify") is False else ":eof" if e.get("eof") else ""))
     if case.get("glob"):
         f.append("device-path-is-a-glob-pattern")
+    if any(c.get("cancel_with_report") for c in case["callers"]):
+        f.append("cancellation-coincides-with-a-report")
     if any(e.get("renamed") for e in case.get("events", [])):
         f.append("device-back-under-another-node-name")
     if case["family"] == "loss":
